@@ -89,6 +89,9 @@ def runVw (kv : List (String × String)) : String := Id.run do
   let some ws := (script.splitOn "/").mapM parseWrite | return "bad-op"
   let V := cfg.native.lanes sz
   let cls := clsOf (clsName == "fix") dims.length
+  let isDiag := clsName == "diag"
+  -- FASTOR_NO_ALIAS=1 compiles the guard out of every view class: the flag is stored but never tested
+  let nal := (getN kv "nal").getD 0 == 1
   let NA := dims.prod
   let env : Nat → Nat → Fp := fun w p => Fp.ofTok w p
   let mut mem : Array Fp := (Array.range NA).map fun p => Fp.ofTok 0 p
@@ -101,13 +104,14 @@ def runVw (kv : List (String × String)) : String := Id.run do
   let mut flag := false      -- `_does_alias` of the stored view object
   let mut first := true
   for w in ws do
-    let axs := axesOf cls dims w.dst
+    -- diag(A) of an N x N parent: the 1-D run 0, N+1, 2(N+1), … written by a plain scalar loop
+    let axs := if isDiag then [(⟨0, dims.headD 0 + 1, dims.headD 0⟩ : Ax)] else axesOf cls dims w.dst
     let exts := axs.map (·.ext)
     let saxs := axesOf cls dims w.src
     let saxs2 := axesOf cls dims w.src2
     let spos : Nat → Nat := fun j => posOf dims saxs (unflat exts j)
     let spos2 : Nat → Nat := fun j => posOf dims saxs2 (unflat exts j)
-    let dpos : Nat → Nat := fun j => posOf dims axs (unflat exts j)
+    let dpos : Nat → Nat := if isDiag then (fun j => j * (dims.headD 0 + 1)) else fun j => posOf dims axs (unflat exts j)
     let c := Fp.ofInt w.c
     let e1 := rdims.getLastD 1
     let rhs : Rhs Fp := match w.rk with
@@ -122,18 +126,18 @@ def runVw (kv : List (String × String)) : String := Id.run do
       | "a" => ⟨false, fun m j => m (spos j)⟩
       | _ => ⟨false, fun m j => m (spos j) * c + m (spos2 j)⟩
     -- the view object: a fresh one per write unless the script keeps the previous one
-    let obj : ViewObj := ⟨true, (if w.keep && !first then flag else false)⟩
+    let obj : ViewObj := ⟨!nal, (if w.keep && !first then flag else false)⟩
     let obj := if w.na then obj.noalias else obj
     let guarded := obj.takesGuardedPath (w.rk == "s")
     flag := (obj.after (w.rk == "s")).flag
     first := false
     let flatRhs := w.rk == "f" && dims.length > 1
     let cstep := if w.rk == "s" then 1 else V
-    let its := itersOf cls V vea dims axs flatRhs cstep
+    let its := if isDiag then linIters V false (axs.headD default) else itersOf cls V vea dims axs flatRhs cstep
     let m0 : Nat → Fp := let a := mem; fun p => a[p]?.getD 0
     let nel := exts.prod
     -- the alias flag: guarded path through a copy of the parent (every slice view class honours it)
-    let its' := if guarded then itersOf cls V vea dims axs false V else its
+    let its' := if guarded && !isDiag then itersOf cls V vea dims axs false V else its
     mem :=
       if guarded then
         let tmp := (Array.range nel).map (rhs.val m0)
@@ -154,7 +158,7 @@ def runVw (kv : List (String × String)) : String := Id.run do
     rd0 := hstep rd0 (hashNats 0 (sortDedup rdA))
     let has := fun (k : IKind) => its'.any fun it => it.kind == k
     routes := routes ++ [(if has .vstore then "v" else "") ++ (if has .scatter then "g" else "") ++ (if has .rmw then "r" else "") ++ (if has .scalar then "s" else "")]
-  let route := s!"{clsName}{dims.length}:" ++ "+".intercalate routes
+  let route := s!"{clsName}{dims.length}{if nal then "-nal" else ""}:" ++ "+".intercalate routes
   return s!"V={V} VAL={hex val} WSEQ={hex wseq} NW={nw} NVS={nvs} RD0={hex rd0} route={route}"
 
 end Fastor.Driver
